@@ -1,0 +1,64 @@
+//go:build verif
+// +build verif
+
+package verifhook
+
+import (
+	"sync"
+	"sync/atomic"
+)
+
+var (
+	mu     sync.RWMutex
+	points = map[string]func(arg interface{}){}
+	flags  sync.Map // name -> *int32
+)
+
+// Set installs (or, with nil, removes) the callback run at the named point.
+func Set(name string, f func(arg interface{})) {
+	mu.Lock()
+	defer mu.Unlock()
+	if f == nil {
+		delete(points, name)
+		return
+	}
+	points[name] = f
+}
+
+// Reset removes every callback and clears every flag.
+func Reset() {
+	mu.Lock()
+	points = map[string]func(arg interface{}){}
+	mu.Unlock()
+	flags.Range(func(k, _ interface{}) bool { flags.Delete(k); return true })
+}
+
+// Point runs the callback registered for name, if any. The callback may yield,
+// sleep, block on a channel or record the event.
+func Point(name string) { PointArg(name, nil) }
+
+// PointArg is Point with a value handed to the callback.
+func PointArg(name string, arg interface{}) {
+	mu.RLock()
+	f := points[name]
+	mu.RUnlock()
+	if f != nil {
+		f(arg)
+	}
+}
+
+// SetFlag sets the named boolean flag.
+func SetFlag(name string, v bool) {
+	p, _ := flags.LoadOrStore(name, new(int32))
+	var i int32
+	if v {
+		i = 1
+	}
+	atomic.StoreInt32(p.(*int32), i)
+}
+
+// Flag reports the named flag (false when never set).
+func Flag(name string) bool {
+	p, ok := flags.Load(name)
+	return ok && atomic.LoadInt32(p.(*int32)) == 1
+}
